@@ -1514,7 +1514,7 @@ matrix_add_generic(PyObject *self, PyObject *other, int inplace)
     {
     number n;
     if (!inplace) {
-      convert_num[id](&n,self,(Matrix_Check(self) ? 0 : 1),0);
+      if (convert_num[id](&n,self,(Matrix_Check(self) ? 0 : 1),0)) return NULL;
 
       matrix *ret = Matrix_NewFromMatrix((matrix *)other, id);
       if (!ret) return NULL;
@@ -1538,7 +1538,7 @@ matrix_add_generic(PyObject *self, PyObject *other, int inplace)
       return (PyObject *)ret;
     }
     else {
-      convert_num[id](&n,other,(Matrix_Check(other) ? 0 : 1),0);
+      if (convert_num[id](&n,other,(Matrix_Check(other) ? 0 : 1),0)) return NULL;
 
       switch (id) {
         case INT:     MAT_BUFI(self)[0] += n.i; break;
@@ -1558,7 +1558,7 @@ matrix_add_generic(PyObject *self, PyObject *other, int inplace)
       MAT_LGT(other)==1))
     {
     number n;
-    convert_num[id](&n,other,(Matrix_Check(other) ? 0 : 1),0);
+    if (convert_num[id](&n,other,(Matrix_Check(other) ? 0 : 1),0)) return NULL;
 
     if (!inplace) {
       matrix *ret = Matrix_NewFromMatrix((matrix *)self, id);
@@ -1668,7 +1668,7 @@ matrix_sub_generic(PyObject *self, PyObject *other, int inplace)
 
     number n;
     if (!inplace) {
-      convert_num[id](&n,self,(Matrix_Check(self) ? 0 : 1),0);
+      if (convert_num[id](&n,self,(Matrix_Check(self) ? 0 : 1),0)) return NULL;
 
       matrix *ret = Matrix_NewFromMatrix((matrix *)other, id);
       if (!ret) return NULL;
@@ -1692,7 +1692,7 @@ matrix_sub_generic(PyObject *self, PyObject *other, int inplace)
       return (PyObject *)ret;
     }
     else {
-      convert_num[id](&n,other,(Matrix_Check(other) ? 0 : 1),0);
+      if (convert_num[id](&n,other,(Matrix_Check(other) ? 0 : 1),0)) return NULL;
 
       switch (id) {
         case INT:     MAT_BUFI(self)[0] -= n.i; break;
@@ -1712,7 +1712,7 @@ matrix_sub_generic(PyObject *self, PyObject *other, int inplace)
   else if (PY_NUMBER(other) || (Matrix_Check(other) &&  MAT_LGT(other)==1))
     {
     number n;
-    convert_num[id](&n,other,(Matrix_Check(other) ? 0 : 1),0);
+    if (convert_num[id](&n,other,(Matrix_Check(other) ? 0 : 1),0)) return NULL;
 
     if (!inplace) {
       matrix *ret = Matrix_NewFromMatrix((matrix *)self, id);
@@ -1822,7 +1822,7 @@ matrix_mul_generic(PyObject *self, PyObject *other, int inplace)
     {
     number n;
     if (!inplace) {
-      convert_num[id](&n,self,(Matrix_Check(self) ? 0 : 1),0);
+      if (convert_num[id](&n,self,(Matrix_Check(self) ? 0 : 1),0)) return NULL;
 
       matrix *ret = Matrix_NewFromMatrix((matrix *)other, id);
       if (!ret) return NULL;
@@ -1832,7 +1832,7 @@ matrix_mul_generic(PyObject *self, PyObject *other, int inplace)
       return (PyObject *)ret;
     }
     else {
-      convert_num[id](&n,other,(Matrix_Check(other) ? 0 : 1),0);
+      if (convert_num[id](&n,other,(Matrix_Check(other) ? 0 : 1),0)) return NULL;
 
       int int1 = 1;
       scal[id](&int1, &n, MAT_BUF(self), &int1);
@@ -1846,7 +1846,7 @@ matrix_mul_generic(PyObject *self, PyObject *other, int inplace)
       MAT_LGT(other)==1))
     {
     number n;
-    convert_num[id](&n,other,(Matrix_Check(other) ? 0 : 1),0);
+    if (convert_num[id](&n,other,(Matrix_Check(other) ? 0 : 1),0)) return NULL;
 
     if (!inplace) {
       matrix *ret = Matrix_NewFromMatrix((matrix *)self, id);
@@ -1927,7 +1927,7 @@ matrix_div_generic(PyObject *self, PyObject *other, int inplace)
 #endif
 
   number n;
-  convert_num[id](&n,other,(Matrix_Check(other) ? 0 : 1),0);
+  if (convert_num[id](&n,other,(Matrix_Check(other) ? 0 : 1),0)) return NULL;
 
   if (!inplace) {
     matrix *ret = Matrix_NewFromMatrix((matrix *)self, id);
@@ -1973,7 +1973,7 @@ matrix_rem_generic(PyObject *self, PyObject *other, int inplace)
   if (id == COMPLEX) PY_ERR(PyExc_NotImplementedError, "complex modulo");
 
   number n;
-  convert_num[id](&n,other,(Matrix_Check(other) ? 0 : 1),0);
+  if (convert_num[id](&n,other,(Matrix_Check(other) ? 0 : 1),0)) return NULL;
 
   if (!inplace) {
     matrix *ret = Matrix_NewFromMatrix((matrix *)self, id);
@@ -2048,7 +2048,7 @@ static PyObject * matrix_pow(PyObject *self, PyObject *other)
 
   number val;
   int id = MAX(DOUBLE, MAX(MAT_ID(self), get_id(other, 1)));
-  convert_num[id](&val, other, 1, 0);
+  if (convert_num[id](&val, other, 1, 0)) return NULL;
   matrix *Y = Matrix_NewFromMatrix((matrix *)self, id);
   if (!Y) return NULL;
 
